@@ -5,7 +5,6 @@ V = os.path.dirname(os.path.dirname(os.path.abspath(__file__)))
 sys.path.insert(0, os.path.join(V, "engine"))
 props = [json.loads(l) for l in open(os.path.join(V, "properties.jsonl"))]
 NA = {
-    "C19": "model-equivalence over all operation sequences of a concurrent data structure; truth lies in run-time values, no structural clause is a necessary condition (DESIGN section 5)",
     "C32": "bounded-time liveness under fair scheduling; depends on timer values, retry arithmetic and the environment - no static argument in reach (DESIGN section 5)",
 }
 checks = []
